@@ -32,7 +32,8 @@ def _short_func(f):
     return f.strip()[:80]
 
 
-def first_repo_frame(text, repo="/repo/"):
+def first_repo_frame(text, repo=None):
+    repo = repo or (os.environ.get("VERIF_REPO", "/repo").rstrip("/") + "/")
     for line in text.splitlines():
         m = _FRAME.search(line) or _FRAME2.search(line)
         if m and m.group(2).startswith(repo) and "/_build/" not in m.group(2):
